@@ -342,12 +342,27 @@ Proof.
     unfold is_kw in E. rewrite E. reflexivity.
 Qed.
 
+(* generic helpers: keep the big table terms out of rewrite/destruct (they are only passed to [exact]) *)
+Lemma negb_mem_not_in : forall x l, negb (mem_str x l) = true -> ~ In x l.
+Proof.
+  intros x l H Hin. apply (proj2 (mem_str_In x l)) in Hin. rewrite Hin in H. discriminate H.
+Qed.
+Lemma valid_name_intro : forall n, is_ident n = true -> (is_kw n = true -> False) -> valid_name n = true.
+Proof.
+  intros n H1 H2. unfold valid_name. rewrite H1. destruct (is_kw n); [exfalso; apply H2; reflexivity | reflexivity].
+Qed.
+
+(* NOTE: converting [guard_F20a s = true] with its unfolding inside a larger term sends the kernel into
+   evaluating the tables; the unfolding lemma below (checked instantly) keeps every later step syntactic. *)
+Lemma guard_F20a_unfold : forall s, guard_F20a s = negb (mem_str (class_name s) cap_keywords).
+Proof. intro s. reflexivity. Qed.
+Lemma guard_F20a_not_in : forall s, guard_F20a s = true -> ~ In (class_name s) cap_keywords.
+Proof. intros s G. rewrite guard_F20a_unfold in G. exact (negb_mem_not_in (class_name s) cap_keywords G). Qed.
+
 Theorem class_name_valid_partial : forall s, guard_F20a s = true -> valid_name (class_name s) = true.
 Proof.
-  intros s G. unfold valid_name. rewrite class_name_ident. simpl.
-  destruct (is_kw (class_name s)) eqn:E; [|reflexivity].
-  apply class_name_kw_only_cap in E. unfold guard_F20a in G.
-  apply negb_true_iff in G. apply mem_str_In in E. rewrite E in G. discriminate G.
+  intros s G. apply valid_name_intro; [apply class_name_ident|].
+  intro E. exact (guard_F20a_not_in s G (class_name_kw_only_cap s E)).
 Qed.
 
 Lemma cap_keywords_are : cap_keywords = [[70;97;108;115;101]; [78;111;110;101]; [84;114;117;101]].
@@ -356,7 +371,7 @@ Proof. vm_compute. reflexivity. Qed.
 (* ================================================================= sanitize_method_name *)
 Lemma camel1_In : forall s c, In c s -> In c (camel1 s).
 Proof.
-  fix IH 1. intros [|a [|b r]] c H; try exact H.
+  induction s as [|a s IH]; intros c H; [exact H|]. destruct s as [|b r]; [exact H|].
   change (camel1 (a :: b :: r)) with
     (if is_lower_or_digit a && is_upper b then a :: 95 :: camel1 (b :: r) else a :: camel1 (b :: r)).
   destruct H as [<-|H].
@@ -366,7 +381,7 @@ Qed.
 
 Lemma camel2_In : forall s c, In c s -> In c (camel2 s).
 Proof.
-  fix IH 1. intros [|a [|b [|d r]]] c H; try exact H.
+  induction s as [|a s IH]; intros c H; [exact H|]. destruct s as [|b [|d r]]; try exact H.
   change (camel2 (a :: b :: d :: r)) with
     (if is_upper a && is_upper b && is_lower d then a :: 95 :: camel2 (b :: d :: r) else a :: camel2 (b :: d :: r)).
   destruct H as [<-|H].
@@ -376,7 +391,7 @@ Qed.
 
 Lemma collapse_us_In_inv : forall s c, In c (collapse_us s) -> In c s.
 Proof.
-  fix IH 1. intros [|a [|b r]] c H; try exact H.
+  induction s as [|a s IH]; intros c H; [exact H|]. destruct s as [|b r]; [exact H|].
   change (collapse_us (a :: b :: r)) with
     (if is_us a && is_us b then collapse_us (b :: r) else a :: collapse_us (b :: r)) in H.
   destruct (is_us a && is_us b).
@@ -386,7 +401,7 @@ Qed.
 
 Lemma collapse_us_In : forall s c, In c s -> is_us c = false -> In c (collapse_us s).
 Proof.
-  fix IH 1. intros [|a [|b r]] c H Hc; try exact H.
+  induction s as [|a s IH]; intros c H Hc; [exact H|]. destruct s as [|b r]; [exact H|].
   change (collapse_us (a :: b :: r)) with
     (if is_us a && is_us b then collapse_us (b :: r) else a :: collapse_us (b :: r)).
   destruct (is_us a && is_us b) eqn:E.
@@ -475,6 +490,15 @@ Proof.
     eapply forallb_map_imp; [|exact Hal]. intros x Hx. apply is_alnum_ident_char, lower_ascii_alnum, Hx.
 Qed.
 
+Lemma forallb_filter_id : forall {A} (p : A -> bool) l, forallb p l = true -> filter p l = l.
+Proof.
+  induction l as [|x l IH]; intro H; [reflexivity|]. simpl in *. apply andb_true_iff in H. destruct H as [H1 H2].
+  rewrite H1, IH by exact H2. reflexivity.
+Qed.
+
+Lemma starts_upper_or_us_app : forall a b, a <> [] -> starts_upper_or_us (a ++ b) = starts_upper_or_us a.
+Proof. intros [|c a] b H; [congruence | reflexivity]. Qed.
+
 Section OracleFree.
   (* ANY behaviour of the Unicode database on non-ASCII code points *)
   Variables (u_word : N -> bool) (u_lower u_upper u_title : N -> str) (u_isdigit u_ign u_cased : N -> bool).
@@ -508,11 +532,10 @@ Section OracleFree.
 
   Lemma member_str_no_kw : forall n, forallb is_member_char n = true -> is_kw n = false.
   Proof.
-    intros n H. apply (not_kw_of_table (fun k => negb (existsb is_lower k))).
-    - rewrite <- kw_table_has_lower. apply forallb_ext. intro k. rewrite negb_involutive. reflexivity.
-    - apply negb_true_iff. destruct (existsb is_lower n) eqn:E; [|reflexivity].
-      apply existsb_exists in E. destruct E as [c [Hin Hc]]. rewrite forallb_forall in H.
-      rewrite (member_char_not_lower c (H c Hin)) in Hc. discriminate.
+    intros n H. destruct (is_kw n) eqn:E; [|reflexivity]. exfalso.
+    apply is_kw_In in E. pose proof kw_table_has_lower as Ht. rewrite forallb_forall in Ht.
+    specialize (Ht n E). apply existsb_exists in Ht. destruct Ht as [c [Hin Hc]].
+    rewrite forallb_forall in H. rewrite (member_char_not_lower c (H c Hin)) in Hc. discriminate Hc.
   Qed.
 
   Lemma member_map_upper : forall n, forallb is_member_char n = true -> map upper_ascii n = n.
@@ -521,30 +544,17 @@ Section OracleFree.
     rewrite (member_char_upper_fix c H1), IH by exact H2. reflexivity.
   Qed.
 
-  (* the tail of both namers: keyword suffix, start check, final shape check *)
-  Definition member_tail (pre : str) (n1 : str) : option str :=
-    let n2 := if is_kw (map lower_ascii n1) then n1 ++ [95] else n1 in
-    let n3 := if starts_upper_or_us n2 then n2 else pre ++ n2 in
-    if nonempty n3 && member_shape n3 then Some n3 else None.
-
-  Lemma member_tail_valid : forall pre n1,
-    member_str pre -> starts_upper_or_us pre = true -> member_str n1 ->
-    exists n, member_tail pre n1 = Some n /\ valid_name n = true /\ member_str n.
+  Lemma kw_suffix_upper_member : forall n1, member_str n1 -> member_str (kw_suffix_upper n1).
   Proof.
-    intros pre n1 [Hpne Hp] Hps [Hne H1]. unfold member_tail.
-    set (n2 := if is_kw (map lower_ascii n1) then n1 ++ [95] else n1).
-    assert (H2 : member_str n2).
-    { subst n2. destruct (is_kw (map lower_ascii n1)).
-      - split; [destruct n1; discriminate | apply forallb_app_iff; split; [exact H1 | reflexivity]].
-      - split; assumption. }
-    set (n3 := if starts_upper_or_us n2 then n2 else pre ++ n2).
-    assert (H3 : member_str n3 /\ starts_upper_or_us n3 = true).
-    { subst n3. destruct (starts_upper_or_us n2) eqn:E.
-      - split; [exact H2 | exact E].
-      - split.
-        + split; [destruct pre; [congruence | discriminate] | apply forallb_app_iff; split; [exact Hp | exact (proj2 H2)]].
-        + destruct pre; [congruence | exact Hps]. }
-    destruct H3 as [[H3ne H3] H3s].
+    intros n1 [Hne H1]. unfold kw_suffix_upper. destruct (is_kw (map lower_ascii n1)).
+    - split; [destruct n1; discriminate | apply forallb_app_iff; split; [exact H1 | reflexivity]].
+    - split; assumption.
+  Qed.
+
+  Lemma member_check_valid : forall n3, member_str n3 -> starts_upper_or_us n3 = true ->
+    member_check n3 = Some n3 /\ valid_name n3 = true.
+  Proof.
+    intros n3 [H3ne H3] H3s.
     assert (Hid : is_ident n3 = true).
     { destruct n3 as [|c r]; [congruence|]. simpl in H3. apply andb_true_iff in H3. destruct H3 as [Hc Hr].
       apply is_ident_of_chars.
@@ -552,21 +562,59 @@ Section OracleFree.
         unfold is_ident_start, is_alpha. unfold is_us in H3s. destruct (is_upper c); [reflexivity|].
         simpl in *. rewrite H3s. apply orb_true_r.
       - eapply forallb_imp; [apply member_char_ident | exact Hr]. }
-    exists n3. split; [|split].
-    - unfold member_shape. rewrite (member_map_upper n3 H3), Hid.
+    split.
+    - unfold member_check, member_shape. rewrite (member_map_upper n3 H3), Hid.
       destruct n3; [congruence | reflexivity].
     - unfold valid_name. rewrite Hid, (member_str_no_kw n3 H3). reflexivity.
-    - split; assumption.
+  Qed.
+
+  Lemma member_tail_valid : forall pre n1,
+    member_str pre -> starts_upper_or_us pre = true -> member_str n1 ->
+    exists n, member_tail pre n1 = Some n /\ valid_name n = true.
+  Proof.
+    intros pre n1 [Hpne Hp] Hps H1. unfold member_tail. cbv zeta.
+    pose proof (kw_suffix_upper_member n1 H1) as H2. set (n2 := kw_suffix_upper n1) in *.
+    destruct (starts_upper_or_us n2) eqn:E.
+    - exists n2. apply member_check_valid; assumption.
+    - exists (pre ++ n2). apply member_check_valid.
+      + split; [destruct pre; [congruence | discriminate] | apply forallb_app_iff; split; [exact Hp | exact (proj2 H2)]].
+      + destruct pre; [congruence | exact Hps].
   Qed.
 
   Lemma s_member_ok : member_str s_member_ /\ starts_upper_or_us s_member_ = true.
   Proof. split; [split; [discriminate | vm_compute; reflexivity] | vm_compute; reflexivity]. Qed.
   Lemma s_member_empty_ok : member_str s_member_empty.
   Proof. split; [discriminate | vm_compute; reflexivity]. Qed.
+  Lemma s_value_ok : member_str s_value_ /\ member_str s_value_neg_ /\ member_str s_enum_member_
+    /\ starts_upper_or_us s_enum_member_ = true /\ member_str s_enum_member_unknown_
+    /\ starts_upper_or_us s_enum_member_unknown_ = true.
+  Proof. repeat split; try discriminate; vm_compute; reflexivity. Qed.
 
   Lemma filter_member_str : forall l, filter is_member_char l <> [] -> member_str (filter is_member_char l).
   Proof.
     intros l H. split; [exact H|]. apply forallb_forall. intros x Hx. apply filter_In in Hx. tauto.
+  Qed.
+
+  Lemma member_str_app : forall a b, member_str a -> forallb is_member_char b = true -> member_str (a ++ b).
+  Proof.
+    intros a b [Ha1 Ha2] Hb. split; [destruct a; [congruence | discriminate]|].
+    apply forallb_app_iff. split; assumption.
+  Qed.
+
+  Lemma enum_str_base_member : forall v, member_str (enum_str_base u_upper v).
+  Proof.
+    intro v. unfold enum_str_base. cbv zeta.
+    destruct (filter is_member_char _) as [|c r] eqn:Es.
+    - destruct (filter is_alnum v) as [|a al] eqn:Ea; [exact s_member_empty_ok|].
+      assert (Hm : member_str (s_member_ ++ map upper_ascii (a :: al))).
+      { apply member_str_app; [exact (proj1 s_member_ok)|].
+        apply forallb_forall. intros x Hx. apply in_map_iff in Hx. destruct Hx as [y [<- Hy]].
+        apply upper_ascii_member. rewrite <- Ea in Hy. apply filter_In in Hy. tauto. }
+      destruct (starts_digit (s_member_ ++ map upper_ascii (a :: al))); [|exact Hm].
+      apply member_str_app; [exact (proj1 s_member_ok) | exact (proj2 Hm)].
+    - assert (Hs : member_str (c :: r)) by (rewrite <- Es; apply filter_member_str; rewrite Es; discriminate).
+      destruct (starts_digit (c :: r)); [|exact Hs].
+      apply member_str_app; [exact (proj1 s_member_ok) | exact (proj2 Hs)].
   Qed.
 
   (* total and valid for EVERY string and EVERY behaviour of str.upper on non-ASCII code points *)
@@ -574,22 +622,43 @@ Section OracleFree.
     exists n, enum_member_str u_upper v = Some n /\ valid_name n = true.
   Proof.
     intro v. unfold enum_member_str.
-    set (san := filter is_member_char _).
-    match goal with |- exists n, (let n2 := if is_kw (map lower_ascii ?N1) then _ else _ in _) = _ /\ _ =>
-      set (n1 := N1) end.
-    assert (H1 : member_str n1).
-    { subst n1. destruct san as [|c r] eqn:Es.
-      - destruct (filter is_alnum v) as [|a al] eqn:Ea; [exact s_member_empty_ok|].
-        assert (Hm : member_str (s_member_ ++ map upper_ascii (a :: al))).
-        { split; [discriminate|]. apply forallb_app_iff. split; [exact (proj2 (proj1 s_member_ok))|].
-          apply forallb_forall. intros x Hx. apply in_map_iff in Hx. destruct Hx as [y [<- Hy]].
-          apply upper_ascii_member. rewrite <- Ea in Hy. apply filter_In in Hy. tauto. }
-        destruct (starts_digit (s_member_ ++ map upper_ascii (a :: al))); [|exact Hm].
-        split; [discriminate|]. apply forallb_app_iff. split; [exact (proj2 (proj1 s_member_ok)) | exact (proj2 Hm)].
-      - assert (Hs : member_str (c :: r)) by (rewrite <- Es; apply filter_member_str; rewrite Es; discriminate).
-        destruct (starts_digit (c :: r)); [|exact Hs].
-        split; [discriminate|]. apply forallb_app_iff. split; [exact (proj2 (proj1 s_member_ok)) | exact (proj2 Hs)]. }
-    destruct (member_tail_valid s_member_ n1 (proj1 s_member_ok) (proj2 s_member_ok) H1) as [n [E [Hv _]]].
-    exists n. split; [exact E | exact Hv].
+    apply member_tail_valid; [exact (proj1 s_member_ok) | exact (proj2 s_member_ok) | apply enum_str_base_member].
+  Qed.
+
+  Lemma dec_member : forall n, forallb is_member_char (dec n) = true.
+  Proof.
+    intro n. unfold dec. induction (N.to_uint n); simpl; try reflexivity; exact IHu.
+  Qed.
+
+  Lemma enum_int_base_member : forall v neg fb, member_str (enum_int_base u_upper v neg fb).
+  Proof.
+    intros v neg fb. unfold enum_int_base. cbv zeta.
+    destruct (filter is_member_char _) as [|c r] eqn:Es.
+    - destruct neg; apply member_str_app; try apply dec_member; apply s_value_ok.
+    - assert (Hs : member_str (c :: r)) by (rewrite <- Es; apply filter_member_str; rewrite Es; discriminate).
+      destruct (starts_upper_or_us (c :: r)); [exact Hs|].
+      apply member_str_app; [apply s_value_ok | exact (proj2 Hs)].
+  Qed.
+
+  Theorem enum_member_int_valid : forall v neg fb,
+    exists n, enum_member_int u_upper v neg fb = Some n /\ valid_name n = true.
+  Proof.
+    intros v neg fb. unfold enum_member_int, member_tail_int. cbv zeta.
+    pose proof (kw_suffix_upper_member _ (enum_int_base_member v neg fb)) as H2.
+    set (n2 := kw_suffix_upper _) in *.
+    destruct (starts_upper_or_us n2) eqn:E.
+    - exists n2. apply member_check_valid; assumption.
+    - set (n := filter is_member_char (map upper_ascii (s_enum_member_ ++ n2))).
+      assert (Hn : n = s_enum_member_ ++ n2).
+      { subst n. rewrite member_map_upper.
+        - apply forallb_filter_id. apply forallb_app_iff. split; [apply s_value_ok | exact (proj2 H2)].
+        - apply forallb_app_iff. split; [apply s_value_ok | exact (proj2 H2)]. }
+      rewrite Hn. exists (s_enum_member_ ++ n2).
+      assert (Hne : s_enum_member_ <> []) by (vm_compute; discriminate).
+      destruct (s_enum_member_ ++ n2) as [|c r] eqn:En.
+      { exfalso. destruct s_enum_member_; [congruence | discriminate En]. }
+      rewrite <- En. apply member_check_valid.
+      + apply member_str_app; [apply s_value_ok | exact (proj2 H2)].
+      + rewrite starts_upper_or_us_app by exact Hne. apply s_value_ok.
   Qed.
 End OracleFree.
